@@ -768,6 +768,14 @@ func (t *timeline) run() {
 		}
 		if !exp.Unchecked {
 			if exp.OK && res.Err != nil {
+				if strings.Contains(res.Err.Error(), "row ids exhausted") {
+					// the database has handed out all 2^32 row ids (the counter
+					// was raised artificially): nothing more can be promised
+					t.r.res.Abandoned = "precondition: row ids exhausted"
+					w.count("abandoned_row_ids_exhausted")
+					t.stop = true
+					break
+				}
 				if strings.Contains(res.Err.Error(), "cache is full") {
 					if d, n, c := w.Dirty(); d >= c-1 || n >= c {
 						t.r.res.Abandoned = "precondition: page cache full of dirty pages"
